@@ -179,6 +179,12 @@ def c07_stream(tier, seed):
             # exactly `info` may determine the info-hash
             other = G.meta_doc(name=b"other", piece_length=2, length=rng.below(6))
             er.append((rng.choice([b"info.utf-8", b"info.utf8", b"info2", b"Info"]), [v for k, v in other[1] if k == b"info"][0]))
+        if i % 5 == 1:
+            # top-level keys NAMED like the keys of an info dictionary (the root looks like a bare info dictionary): only the
+            # value of `info` is the info dictionary
+            er += [(b"pieces", bytes(20)), (b"piece length", rng.range(1, 9))]
+            if rng.chance(1, 2):
+                er += [(b"name", b"decoy"), (b"length", rng.range(1, 4))]
         ei = [(k, G.gen_value(rng, 3)) for k in rng.shuffle([b"private", b"source", b"x", b"zzz", b"e", b"de", b"4:name"])[:rng.range(0, 4)]]
         doc = G.benc(G.meta_doc(extra_root=er, extra_info=ei, **kw))
         out.append(("load " + hx(doc), "valid+decoys"))
